@@ -988,6 +988,17 @@ func (fc *FnCtx) assumeInvariants(li *LoopInfo, env *Env) {
 		}
 		if len(items) == 0 {
 			fc.groundKeep(fc.entry, env.st, nil)
+			// `modifies nothing`: stated also object by object (equal inner arrays follow from equal
+			// cells by extensionality), so that terms over whole objects -- bytes(x), md5(bytes(x)) --
+			// are seen to be unchanged by congruence
+			o := Term{"o!fr", SInt}
+			for _, hs := range heapSorts {
+				if fc.entry.heap[hs].S == env.st.heap[hs].S {
+					continue
+				}
+				body := Implies(Lt(o, fc.entry.next), Eq(Select(env.st.heap[hs], o), Select(fc.entry.heap[hs], o)))
+				fc.assume(Term{fmt.Sprintf("(forall ((o!fr Int)) (! %s :pattern (%s)))", body.S, Select(env.st.heap[hs], o).S), SBool})
+			}
 		}
 		_ = items
 	}
